@@ -16,7 +16,7 @@ c_direct = Component("literal-roundtrip-direct",
 c_lexer = Component("literal-is-one-token-in-a-statement",
                     "the literal embedded in `set useragent <lit>; set jitter \"7\";` and in `http-get { client { metadata { prepend <lit>; "
                     "print; } } }`: the parser accepts, the STRING tokens of the parse tree are exactly the literal (and the following statement's), decode to the original "
-                    "bytes, and as_dict() agrees on a 1-in-25 sample; quick: all lengths <= 1 over 0x00-0xff, all pairs over a 40-byte alphabet incl. the syntax bytes, "
+                    "bytes, and as_dict() agrees on a 1-in-25 sample; quick: all lengths <= 1 over 0x00-0xff, all pairs over a 40-byte alphabet incl. the syntax bytes plus 5000 random pairs, "
                     "length <= 3 over the syntax alphabet; thorough: the full domain of the property")
 c_esc = Component("escape-table", "\\xHH for all 256 values (both hex cases), \\u00HH for all 256, \\n \\r \\t \\\\ \\\" \\' , each at the "
                   "start, in the middle and at the end of a literal; truncated \\x / \\u raise ValueError")
@@ -45,6 +45,7 @@ if TIER == "quick":
     alpha = sorted(set(b'"\\xu\n;{}#\'') | set(b"aZ09 \t\r\x00\x01\x7f\x80\xff=/.-_:,<>[]()!") )
     ldom = [b""] + [bytes([a]) for a in range(256)] + [bytes([a, b]) for a in alpha for b in alpha]
     ldom += [b"".join(t) for n in (3,) for t in itertools.product(SYNTAX, repeat=n)]
+    ldom += [bytes([rng.randrange(256), rng.randrange(256)]) for _ in range(5000)]      # a seeded sample of the remaining pairs
 else:
     ldom = [b""] + [bytes([a]) for a in range(256)] + [bytes([a, b]) for a in range(256) for b in range(256)]
     ldom += [b"".join(t) for n in (3, 4) for t in itertools.product(SYNTAX, repeat=n)]
